@@ -1,6 +1,7 @@
 import Cirbo.Proofs.Synth
 import Cirbo.Proofs.GenSum
 import Cirbo.Generated.SynthTables
+import Cirbo.Proofs.SynthCircuit
 /-!
 # C06 — Exact synthesis is sound and complete for the requested size and basis
 
@@ -8,7 +9,8 @@ import Cirbo.Generated.SynthTables
 -- OBLIGATION: c06_complete
 -- OBLIGATION: c06_find_circuit
 -- OBLIGATION: c06_tt_to_gate_type_correct
--- PARTIAL: the theorems are about the Lean encoding `encode` and the decoded solution (positions, operation tables, output positions, per-row evaluation); that the code emits exactly this clause multiset and decodes a model to exactly this solution is the correspondence check (every run, incl. all constraint kinds and argument checks). Building the `Circuit` object from the decoded solution (labels "i" / "s<g>") is covered by the correspondence check and the regenerated `_tt_to_gate_type` table (proved correct below), not by a separate theorem. The time-limit path (SolverTimeOutError) and the circuit-database shortcut are outside the model (the property excludes the shortcut).
+-- OBLIGATION: c06_returned_circuit_computes_the_table
+-- PARTIAL: the theorems are about the Lean encoding `encode` and the decoded solution (positions, operation tables, output positions, per-row evaluation); that the code emits exactly this clause multiset and decodes a model to exactly this solution is the correspondence check (every run, incl. all constraint kinds and argument checks). Building the `Circuit` object from the decoded solution (labels "i" / "s<g>", gate types from the regenerated table, outputs marked in order) is modelled (Model/SynthCircuit.lean), compared with the code on every run and proved to compute the solution (c06_returned_circuit_computes_the_table). The time-limit path (SolverTimeOutError) and the circuit-database shortcut are outside the model (the property excludes the shortcut).
 -/
 namespace Cirbo
 open Synth
@@ -42,6 +44,26 @@ theorem c06_tt_to_gate_type_correct {a b c d : Bool} {ty : GateType} (h : Gen.sy
   cases a <;> cases b <;> cases c <;> cases d <;> simp only [Gen.synthTtType, Option.some.injEq] at h <;>
     subst h <;> cases x <;> cases y <;> rfl
 
+/-- **end to end**: the `Circuit` object built from a solution that satisfies the promises (`SolOk`,
+which by `c06_sound` every decoded satisfying assignment does) has the inputs `0 … n-1` in order, one
+output per requested output, and under every valuation whose inputs carry row `t` each output has the
+value the table asks for wherever the table is defined -/
+theorem c06_returned_circuit_computes_the_table {sp : Spec} {sol : Sol} {c : Circuit} (hok : SolOk sp sol)
+    (h : solToCircuit sp sol = .ok c) :
+    c.inputs = (List.range sp.n).map toString ∧
+    c.outputs = (List.range sp.m).map (fun h => "s" ++ toString (sol.out h)) ∧
+    ∀ (b v : Label → Bool) (t : Nat), t < 2 ^ sp.n → IsValB c b v → (∀ i, i < sp.n → b (toString i) = inputBit sp i t) →
+      ∀ hh, hh < sp.m → ∀ val, sp.table hh t = some val → v ("s" ++ toString (sol.out hh)) = val := by
+  obtain ⟨h1, h2, h3⟩ := solToCircuit_spec hok.preds h
+  refine ⟨h1, h2, ?_⟩
+  intro b v t ht hv hb hh hhm val htab
+  obtain ⟨o1, o2⟩ := hok.outs hh hhm
+  have := h3 b v t hv hb (sol.out hh) o2
+  unfold synthLabel at this
+  rw [if_neg (by omega)] at this
+  rw [this]
+  exact hok.agrees hh hhm t ht val htab
+
 /-! Non-vacuity: XOR of two inputs with 3 AIG-style gates — an explicit solution satisfies `SolOk`'s
 computable core on a concrete spec (evaluated) -/
 def c06Spec : Spec where
@@ -59,5 +81,9 @@ example : (List.range 4).all (fun t => eval c06Spec c06Sol t 2 == (t == 1 || t =
 #print axioms c06_complete
 #print axioms c06_find_circuit
 #print axioms c06_tt_to_gate_type_correct
+#print axioms c06_returned_circuit_computes_the_table
+
+/-- non-vacuity of the builder: the example solution yields a circuit -/
+example : (solToCircuit c06Spec c06Sol).toOption.map (fun c => (c.inputs, c.outputs, c.gates.length)) = some (["0", "1"], ["s2"], 3) := by decide
 
 end Cirbo
